@@ -97,12 +97,18 @@ pub enum IdRef {
     /// k-th credential registered so far in this history (modulo the number registered)
     Existing(usize),
     Unknown(Vec<u8>),
+    /// the first n bytes of the k-th registered credential's id (a different id that is a prefix)
+    PrefixOf(usize, usize),
+    /// the k-th registered credential's id followed by extra bytes
+    ExtensionOf(usize, Vec<u8>),
 }
 
 #[derive(Clone, Debug)]
 pub enum KeyRef {
     Existing(usize),
     Raw(String),
+    PrefixOf(usize, usize),
+    ExtensionOf(usize, Vec<u8>),
 }
 
 pub type Eval = (Vec<u8>, Option<Vec<u8>>);
@@ -137,6 +143,8 @@ pub struct RegSpec {
     pub prf: PrfSpec,
     pub exclude: Option<Vec<IdRef>>,
     pub uv_outcome: UvOutcome,
+    /// attestation conveyance preference: 0 none (default), 1 indirect, 2 direct, 3 enterprise
+    pub attestation: u8,
 }
 
 #[derive(Clone, Debug)]
@@ -212,7 +220,7 @@ impl Op {
         fn ids(v: &Option<Vec<IdRef>>) -> Value {
             match v {
                 None => Value::Null,
-                Some(l) => json!(l.iter().map(|i| match i { IdRef::Existing(k) => json!({"existing": k}), IdRef::Unknown(b) => json!({"unknown": hex_short(b)}) }).collect::<Vec<_>>()),
+                Some(l) => json!(l.iter().map(|i| match i { IdRef::Existing(k) => json!({"existing": k}), IdRef::Unknown(b) => json!({"unknown": hex_short(b)}), other => json!(format!("{other:?}")) }).collect::<Vec<_>>()),
             }
         }
         fn allow(a: &AllowSpec) -> Value {
@@ -231,7 +239,7 @@ impl Op {
             Op::Register(r) => json!({"op": "register", "origin": r.origin.url(), "rp_id": r.rp_id, "user_id": hex_short(&r.user_id),
                 "user_name": r.user_name, "challenge": hex_short(&r.challenge), "algs": r.algs, "unknown_type_for_unsupported_algs": r.unknown_type_for_unsupported, "client_data": r.cd.name(),
                 "uv": r.uv.map(|u| format!("{u:?}")), "resident_key": r.resident_key.map(|u| format!("{u:?}")), "require_rk": r.require_rk,
-                "cred_props": r.cred_props, "prf": prf(&r.prf), "exclude": ids(&r.exclude), "uv_outcome": format!("{:?}", r.uv_outcome)}),
+                "cred_props": r.cred_props, "prf": prf(&r.prf), "exclude": ids(&r.exclude), "uv_outcome": format!("{:?}", r.uv_outcome), "attestation_preference": r.attestation}),
             Op::Authenticate(a) => json!({"op": "authenticate", "origin": a.origin.url(), "rp_id": a.rp_id, "challenge": hex_short(&a.challenge),
                 "allow": allow(&a.allow), "allow_descriptor_types": a.allow_types, "client_data": a.cd.name(), "uv": format!("{:?}", a.uv), "prf": prf(&a.prf), "uv_outcome": format!("{:?}", a.uv_outcome)}),
             Op::Make(m) => json!({"op": "make_credential", "rp_id": m.rp_id, "user_id": hex_short(&m.user_id), "algs": m.algs, "unknown_type_for_unsupported_algs": m.unknown_type_for_unsupported,
@@ -318,6 +326,15 @@ impl World {
             IdRef::Existing(k) if !self.model.is_empty() => self.model[k % self.model.len()].id.clone(),
             IdRef::Existing(k) => vec![*k as u8; 16],
             IdRef::Unknown(b) => b.clone(),
+            IdRef::PrefixOf(k, n) => {
+                let id = self.resolve(&IdRef::Existing(*k));
+                id[..(*n).min(id.len())].to_vec()
+            }
+            IdRef::ExtensionOf(k, extra) => {
+                let mut id = self.resolve(&IdRef::Existing(*k));
+                id.extend_from_slice(extra);
+                id
+            }
         }
     }
     fn resolve_key(&self, k: &KeyRef) -> String {
@@ -325,6 +342,8 @@ impl World {
             KeyRef::Existing(i) if !self.model.is_empty() => crate::oracle::b64url(&self.model[i % self.model.len()].id),
             KeyRef::Existing(i) => crate::oracle::b64url(&vec![*i as u8; 16]),
             KeyRef::Raw(s) => s.clone(),
+            KeyRef::PrefixOf(k, n) => crate::oracle::b64url(&self.resolve(&IdRef::PrefixOf(*k, *n))),
+            KeyRef::ExtensionOf(k, e) => crate::oracle::b64url(&self.resolve(&IdRef::ExtensionOf(*k, e.clone()))),
         }
     }
     fn prf_inputs(&self, p: &PrfInputs) -> (AuthenticationExtensionsPrfInputs, Vec<(String, Eval)>) {
@@ -424,6 +443,12 @@ impl World {
                     opts.public_key.exclude_credentials = Some(ids.iter().map(|i| descriptor(i)).collect());
                     resolved_exclude = Some(ids);
                 }
+                opts.public_key.attestation = match r.attestation {
+                    1 => webauthn::AttestationConveyancePreference::Indirect,
+                    2 => webauthn::AttestationConveyancePreference::Direct,
+                    3 => webauthn::AttestationConveyancePreference::Enterprise,
+                    _ => webauthn::AttestationConveyancePreference::None,
+                };
                 let (ext, r1, r2) = self.ext_inputs(r.cred_props, &r.prf);
                 opts.public_key.extensions = ext;
                 rb = r1;
@@ -699,6 +724,7 @@ pub fn gen_register(rng: &mut Rng) -> RegSpec {
         },
         exclude: if rng.chance(1, 5) { Some(gen_idrefs(rng)) } else { None },
         uv_outcome: gen_uv_outcome(rng),
+        attestation: *rng.pick(&[0u8, 0, 1, 2, 3]),
     }
 }
 
